@@ -718,6 +718,7 @@ let () = register "c04" (fun line ->
   let cs = ref { Gossip.gb = { Migrate.ndb = (fun _ _ -> None); own = (fun s -> n_of_int layout.(int_of_n s)); mig = (fun _ -> None) };
                  lag = (fun _ -> None) } in
   let settle () = cs := { !cs with Gossip.lag = (fun _ -> None) } in
+  let cdown4 = ref false in
   let pending = ref [] in
   let dead = ref [] in
   let keys = ref [] in
@@ -730,6 +731,17 @@ let () = register "c04" (fun line ->
     else
       let fs = L.filter (fun x -> x <> "") (S.split_on_char ' ' it) in
       match fs with
+      | ["cd"] -> cdown4 := true
+      | ["cu"] -> cdown4 := false
+      | "q" :: body when !cdown4 ->
+        (* CLUSTERDOWN is handed to the client as it is; nothing is executed; steps of an @ask hook wait *)
+        let rec hook_of = function
+          | "@ask" :: rest -> steps_of (S.concat " " rest)
+          | _ :: rest -> hook_of rest
+          | [] -> [] in
+        pending := !pending @ hook_of body;
+        replies := val_string (Resp.Err (bytes_of_ocaml "CLUSTERDOWN The cluster is down")) :: !replies;
+        execs := "0" :: !execs
       | ("q" | "qx" as kind) :: body ->
         let (body, hook) =
           let rec split acc = function
